@@ -72,6 +72,49 @@ def swriteLoop (unordered : Bool) (max : Int) (inp : Bytes) : Nat → Nat → Li
 def swrite (unordered : Bool) (max : Int) (inp : Bytes) : List Bytes × SOut :=
   swriteLoop unordered max inp (inp.length + 1) 0 []
 
+/-! ### where a datagram enters a stream from a packet-oriented source (UDP socket)
+
+Two places hand datagrams of a local UDP socket to an unordered stream:
+`client.RouteUDP` (`localConn.ReadFrom(data)` then `stream.Write(data[:i])`) and `Stream.ReadFrom(r)`
+(the server's `common.Copy(stream, udpConn)`; `r.Read(buf[hdr : hdr+L])`, one frame per `Read`).
+A packet source gives one datagram per read and *silently drops* what does not fit the buffer, so the
+buffer lengths (and the size test after the read, if any) are part of the property.  Both lengths and the
+test are the extractor's terms (`Gen.Datagram.routeUDPBufLen`, `readFromLen`, `readFromRefuses`). -/
+
+/-- one read of a packet-oriented source with a buffer of `cap` bytes: the next datagram cut to the buffer -/
+def pktRead (cap : Nat) (d : Bytes) : Bytes := d.take cap
+
+/-- one iteration of `client.RouteUDP` with an entry buffer of `bufLen` bytes and the session's per-frame maximum -/
+def udpEntryAt (bufLen : Nat) (max : Int) (d : Bytes) : List Bytes × SOut :=
+  swrite true max (pktRead bufLen d)
+
+/-- `client.RouteUDP` as it is in the source: `data := make([]byte, routeUDPBufLen)` -/
+def udpEntry (max : Int) (d : Bytes) : List Bytes × SOut :=
+  udpEntryAt Gen.Datagram.routeUDPBufLen.toNat max d
+
+/-- one iteration of `Stream.ReadFrom` on a packet source: read with `readLen` bytes of room, apply the size
+test (`refuses`, on the number of bytes read), otherwise send exactly the bytes read as one frame -/
+def readFromAt (readLen : Nat) (refuses : Nat → Bool) (d : Bytes) : List Bytes × SOut :=
+  if refuses (pktRead readLen d).length then ([], .errShortBuffer) else ([pktRead readLen d], .ok)
+
+/-- `Stream.ReadFrom` as it is in the source, packet source (`r` is a `net.PacketConn`) -/
+def readFromPkt (unordered : Bool) (max : Int) (d : Bytes) : List Bytes × SOut :=
+  readFromAt (Gen.Datagram.readFromLen max true unordered).toNat
+    (fun k => Gen.Datagram.readFromRefuses (k : Int) max) d
+
+/-- `Stream.ReadFrom` on a byte-stream source (TCP) that has `rest` ready: every `Read` takes what fits, the
+remainder stays in the source; the source's EOF ends the loop (`.ok`). -/
+def readFromStreamLoop (readLen : Nat) (refuses : Nat → Bool) : Nat → Bytes → List Bytes → List Bytes × SOut
+  | 0, _, sent => (sent, .outOfFuel)
+  | fuel+1, rest, sent =>
+    if rest.length = 0 then (sent, .ok)
+    else if refuses (rest.take readLen).length then (sent, .errShortBuffer)
+    else readFromStreamLoop readLen refuses fuel (rest.drop readLen) (sent ++ [rest.take readLen])
+
+def readFromStream (unordered : Bool) (max : Int) (inp : Bytes) : List Bytes × SOut :=
+  readFromStreamLoop (Gen.Datagram.readFromLen max false unordered).toNat
+    (fun k => Gen.Datagram.readFromRefuses (k : Int) max) (inp.length + 1) inp []
+
 /-! ### receiver: the session's stream table -/
 
 /-- a deobfuscated frame as seen by `recvDataFromRemote` -/
